@@ -89,3 +89,114 @@ def replay_history(spec, case):
             if mon == case.get("monitor"):
                 msgs.append(f"{mon}: {msg}")
     return msgs
+
+
+# ---------------------------------------------------------------------------------------------------------------
+# histories with a NaN label (a hashable that is unequal to itself, found again only by identity).  They are run in this
+# process, on one shared NaN object, because a NaN does not survive pickling or repr() as *the same* label.
+
+NAN = float("nan")
+
+NAN_OPS = {
+    "Hypergraph": [
+        ("H.add_node(NAN)", lambda H: H.add_node(NAN)),
+        ("H.add_edge([1, NAN])", lambda H: H.add_edge([1, NAN])),
+        ("H.add_edge([NAN])", lambda H: H.add_edge([NAN])),
+        ("H.add_edge([3, 4, NAN], idx=7)", lambda H: H.add_edge([3, 4, NAN], idx=7)),
+        ("H.add_edges_from([[1, NAN], [2, 3]])", lambda H: H.add_edges_from([[1, NAN], [2, 3]])),
+        ("H.add_edges_from({'x': [2, NAN]})", lambda H: H.add_edges_from({"x": [2, NAN]})),
+        ("H.add_edges_from([([NAN, 3], 8)])", lambda H: H.add_edges_from([([NAN, 3], 8)])),
+        ("H.add_edges_from([([NAN, 3], 9, {'w': 1})])", lambda H: H.add_edges_from([([NAN, 3], 9, {"w": 1})])),
+        ("H.add_node_to_edge(0, NAN)", lambda H: H.add_node_to_edge(0, NAN)),
+        ("H.add_node_to_edge(5, NAN)", lambda H: H.add_node_to_edge(5, NAN)),
+        ("H.remove_node(NAN)", lambda H: H.remove_node(NAN)),
+        ("H.remove_node_from_edge(0, NAN)", lambda H: H.remove_node_from_edge(0, NAN)),
+        ("H.add_edge([1, 2])", lambda H: H.add_edge([1, 2])),
+        ("H.remove_edge(0)", lambda H: H.remove_edge(0)),
+    ],
+    "DiHypergraph": [
+        ("H.add_node(NAN)", lambda H: H.add_node(NAN)),
+        ("H.add_edge(([1], [NAN]))", lambda H: H.add_edge(([1], [NAN]))),
+        ("H.add_edge(([NAN], [NAN, 2]), idx=7)", lambda H: H.add_edge(([NAN], [NAN, 2]), idx=7)),
+        ("H.add_edges_from([([1], [NAN]), ([2], [3])])", lambda H: H.add_edges_from([([1], [NAN]), ([2], [3])])),
+        ("H.add_edges_from({'x': ([2], [NAN])})", lambda H: H.add_edges_from({"x": ([2], [NAN])})),
+        ("H.add_edges_from([(([NAN], [3]), 8, {'w': 1})])", lambda H: H.add_edges_from([(([NAN], [3]), 8, {"w": 1})])),
+        ("H.add_node_to_edge(0, NAN, 'in')", lambda H: H.add_node_to_edge(0, NAN, "in")),
+        ("H.add_node_to_edge(5, NAN, 'out')", lambda H: H.add_node_to_edge(5, NAN, "out")),
+        ("H.remove_node(NAN)", lambda H: H.remove_node(NAN)),
+        ("H.add_edge(([1], [2]))", lambda H: H.add_edge(([1], [2]))),
+        ("H.remove_edge(0)", lambda H: H.remove_edge(0)),
+    ],
+    "SimplicialComplex": [
+        ("H.add_node(NAN)", lambda H: H.add_node(NAN)),
+        ("H.add_simplex([1, NAN])", lambda H: H.add_simplex([1, NAN])),
+        ("H.add_simplex([3, 4, NAN], idx=7)", lambda H: H.add_simplex([3, 4, NAN], idx=7)),
+        ("H.add_simplices_from([[1, NAN, 2], [2, 3]])", lambda H: H.add_simplices_from([[1, NAN, 2], [2, 3]])),
+        ("H.add_simplices_from({'x': [2, NAN]})", lambda H: H.add_simplices_from({"x": [2, NAN]})),
+        ("H.add_simplices_from([([NAN, 3, 4], 8, {'w': 1})])", lambda H: H.add_simplices_from([([NAN, 3, 4], 8, {"w": 1})])),
+        ("H.remove_node(NAN)", lambda H: H.remove_node(NAN)),
+        ("H.add_simplex([1, 2, 3])", lambda H: H.add_simplex([1, 2, 3])),
+        ("H.remove_simplex_id(0)", lambda H: H.remove_simplex_id(0)),
+    ],
+}
+
+
+def _nan_init(cls):
+    import xgi
+
+    if cls == "Hypergraph":
+        return xgi.Hypergraph([[1, 2], [2, 3]])
+    if cls == "DiHypergraph":
+        return xgi.DiHypergraph([([1], [2]), ([2], [3])])
+    return xgi.SimplicialComplex([[1, 2], [2, 3]])
+
+
+def run_nan_history(cls, idxs, invariants):
+    """Execute one history (indices into NAN_OPS[cls]); returns the first violation as (monitor, message, history) or None."""
+    import types
+    import warnings
+
+    H = _nan_init(cls)
+    hist = [f"<{cls} with edges [1, 2], [2, 3]>"]
+    for i in idxs:
+        label, f = NAN_OPS[cls][i]
+        hist.append(label)
+        raised = None
+        with warnings.catch_warnings():
+            warnings.simplefilter("ignore")
+            try:
+                f(H)
+            except RecursionError:
+                raise
+            except Exception as e:  # noqa: BLE001
+                raised = e
+        ctx = types.SimpleNamespace(obj=H, op=label, history=tuple(hist), out=types.SimpleNamespace(raised=raised is not None))
+        for inv in invariants:
+            for mon, msg, tags in inv(ctx) or ():
+                return mon, f"[NaN label] after {hist[1:]}{' (the last call raised ' + type(raised).__name__ + ')' if raised else ''}: {msg}", list(idxs)
+    return None
+
+
+def nan_histories(prop, check, cls, invariants, ev, depth=3):
+    """All histories of length <= depth over NAN_OPS[cls], sequentially in this process."""
+    import itertools
+
+    viols = []
+    n = 0
+    ops = NAN_OPS[cls]
+    for d in range(1, depth + 1):
+        for idxs in itertools.product(range(len(ops)), repeat=d):
+            n += 1
+            r = run_nan_history(cls, idxs, invariants)
+            if r is not None:
+                mon, msg, idx = r
+                viols.append(Violation(prop, mon, msg, {"check": check, "kind": "nan-history", "cls": cls, "ops": idx, "monitor": mon},
+                                       {"method": ops[idx[-1]][0].split("(", 1)[0], "nan": True}))
+                if len(viols) >= 5:
+                    break
+        if len(viols) >= 5:
+            break
+    ev.add(states=n, transitions=n, evaluations=n, distinct_nontrivial=n)
+    ev.part(f"{cls}-nan-label-histories", histories=n, depth=depth, alphabet=len(ops))
+    return viols
+
